@@ -128,7 +128,8 @@ def run(chk, drv):
                             continue
                         nums = [r[0] for r in WS.split(data)]
                         emitted = f.num in nums
-                        is_default = which == "default" or v in (("t", 0), ("d", 0), default_of(f), ("f32", 0x80000000), ("f64", 0x8000000000000000))
+                        is_default = (which == "default" or v in (("t", 0), ("d", 0), default_of(f), ("f32", 0x80000000), ("f64", 0x8000000000000000))
+                                      or (v[0] == "c" and bytes(bpgen.to_py(v, b.classes)) == b""))   # a sub-message with nothing in it
                         if is_default and not explicit(f):
                             if f.ty == "message" and not f.wraps and f.kind.startswith("u"):
                                 # plain sub-message: emitted exactly when serialized_on_wire reports it
